@@ -10,7 +10,7 @@ import common
 from common import Harness, approx
 from rank_common import Pbar
 
-VALUES = ['', '1', '11', '111', '0', '00', 'a', 'ab', 'b', 'ba', '1:1', ':', '2:', '1:', 'é', '☃', ' ', 'a b', 'AND', ' AND ', '-', '1-', '-1', 'nan']
+VALUES = ['', '1', '11', '111', '0', '00', 'a', 'ab', 'b', 'ba', '1:1', ':', '2:', '1:', 'é', '☃', ' ', 'a b', 'AND', ' AND ', '-', '1-', '-1', 'nan', 'a ', ' a', 'A', '01', '1.0']
 
 
 def partition(seq):
